@@ -81,6 +81,12 @@ CLAIMED.update({
          LEDGER_NOTE.replace("Default simulator genesis.", "Randomised genesis consensus configuration.") + " Instants before 1970 or beyond the last representable minute are not compared (saturation by design).", "5 C44"),
 })
 
+CLAIMED.update({
+ "C51": ("exploration", "deterministic simulation with fault injection: seeded histories in which parties lock metadata entries and owner roles and then every party keeps attacking them; model-free history invariant over every commit's state updates (a stored Locked substate or a None-updater owner role may never change)",
+         "For every commit of seeded histories (with injected faults) each updated substate is compared with its pre-state: substates stored as Locked (fields, key-value entries incl. metadata and non-fungible tombstones) and owner roles with updater None must be rewritten byte-identically or not at all.",
+         LEDGER_NOTE + " Component royalty settings and WASM key-value stores are not part of the workload; they are covered only as far as the generic Locked-substate monitor sees them.", "5 C51"),
+})
+
 PURE = "pure function of one input value: no schedule, clock, I/O, fault or history for a simulator to own (DESIGN section 6)"
 NOT_APPLICABLE = {
  "C16": "key mapping is a pure bijection on keys; " + PURE,
